@@ -1,4 +1,18 @@
 TEXTS = {
+    "C13": {
+        "text": "Machine-checked Lean 4 theorem C13_holds (no wiring hypothesis): every run of the actor model with an "
+                "attached stream (empty, finite, never-ending, never-ready, bursty; messages interleaved; both "
+                "outcomes of the select tie-break; every termination cause) is accepted by monC13: each handled item "
+                "is exactly the next one the stream yielded (order, no repeats, no skips), no item or message being "
+                "handled is ever abandoned (the stream loop has no deadline), finished then stopped at most once "
+                "each. The stream loop of the model is tied to create_loop_on_stream by acceptance of real traces "
+                "driven through a harness-controlled stream.",
+        "design_ref": "DESIGN.md §5 C13",
+        "note": "Partial: the quiescence clauses (monC13q: terminates on stream end / stop / last handle drop even if "
+                "the stream never ends; all yielded items handled) are checked on real traces, not proved. Trusted: "
+                "Lean kernel + axioms; hand-written stream-loop model validated by trace acceptance.",
+        "technique": "Lean 4 proof (item queue refinement + phase invariants by exhaustive step case analysis) + checked trace correspondence",
+    },
     "C19": {
         "text": "Machine-checked Lean 4 theorems C19_holds / C19_no_bypass over Model/Types.lean: if every public "
                 "entry point carries the trait bounds listed in `required`, then for ALL profiles of actor and message "
@@ -110,6 +124,6 @@ TEXTS = {
 _PENDING = "check under construction in this round: model + theorem not yet wired into ./check (see DESIGN.md build order); not claimed until its three obligations run end to end"
 NOT_APPLICABLE = [
     {"property_id": p, "reason": _PENDING}
-    for p in ["C01", "C02", "C04", "C05", "C06", "C08", "C09", "C10", "C11", "C13",
+    for p in ["C01", "C02", "C04", "C05", "C06", "C08", "C09", "C10", "C11",
               "C16", "C17"]
 ]
